@@ -247,3 +247,127 @@ def bool_switch_arms(fn, b):
     if 1 in arms:
         return (arms[1], t[3])
     return None
+
+
+def agg_sites(fn, adt_pat, variant=None):
+    """Statements that construct a value of ADT `adt_pat` (optionally a given variant)."""
+    rx = re.compile(adt_pat)
+    out = []
+    for s in fn.sites:
+        n = s.node
+        if s.i != 'T' and n[0] == 'a' and n[2][0] == 'agg':
+            k = n[2][1]
+            if k[0] == 'adt' and rx.search(k[1]) and (variant is None or k[2] == variant):
+                out.append(s)
+    return out
+
+
+def const_sites(fn, pat):
+    """Statements / call arguments that use a named constant matching pat. Returns list of sites."""
+    rx = re.compile(pat)
+    out = []
+
+    def has(op):
+        return isinstance(op, list) and op and op[0] == 'k' and ((op[4] and rx.search(op[4])) or rx.search(op[1]))
+    for s in fn.sites:
+        n = s.node
+        if s.is_call:
+            if any(has(a) for a in s.args):
+                out.append(s)
+        elif s.i != 'T' and n[0] == 'a':
+            rv = n[2]
+            ops = []
+            if rv[0] in ('use',):
+                ops = [rv[1]]
+            elif rv[0] == 'bin':
+                ops = [rv[2], rv[3]]
+            elif rv[0] == 'agg':
+                ops = rv[2]
+            elif rv[0] == 'cast':
+                ops = [rv[2]]
+            if any(has(o) for o in ops):
+                out.append(s)
+        elif s.i == 'T' and n[0] == 'switch' and has(n[1]):
+            out.append(s)
+    return out
+
+
+def guard_switches(fn, site):
+    """Switch blocks one of whose out-edges dominates `site` exclusively (nearest first)."""
+    out = []
+    for b in range(len(fn.blocks)):
+        t = fn.blocks[b]['t']
+        if t[0] != 'switch':
+            continue
+        for tgt in fn.succ(b):
+            if fn.edge_dominates(b, tgt, site.b) and not all(fn.edge_dominates(b, t2, site.b) for t2 in fn.succ(b)):
+                out.append((b, tgt))
+                break
+    # nearest = the one dominated by all others
+    out.sort(key=lambda bt: -len([1 for (b2, _) in out if fn.block_dominates(b2, bt[0])]))
+    return out
+
+
+def loop_recheck(R, fn, cas_sites, check_sites, key, why=''):
+    """Inside a CAS retry loop: every path from a CAS to the next CAS passes a check site."""
+    return no_path(R, fn, cas_sites, cas_sites, check_sites, key, why, rule='LOOP')
+
+
+def find_subterm(t, pred):
+    """First subterm of a symbolic term satisfying pred (pre-order)."""
+    if pred(t):
+        return t
+    for x in t[1:]:
+        if isinstance(x, tuple):
+            if x and isinstance(x[0], str):
+                r = find_subterm(x, pred)
+                if r is not None:
+                    return r
+            else:
+                for y in x:
+                    if isinstance(y, tuple) and y and isinstance(y[0], str):
+                        r = find_subterm(y, pred)
+                        if r is not None:
+                            return r
+    return None
+
+
+def all_subterms(t, pred, acc=None):
+    if acc is None:
+        acc = []
+    if pred(t):
+        acc.append(t)
+    for x in t[1:]:
+        if isinstance(x, tuple):
+            if x and isinstance(x[0], str):
+                all_subterms(x, pred, acc)
+            else:
+                for y in x:
+                    if isinstance(y, tuple) and y and isinstance(y[0], str):
+                        all_subterms(y, pred, acc)
+    return acc
+
+
+def shift_path(t, leaf_pred):
+    """Along the path from the root of term t to the leaf satisfying leaf_pred collect (op, const) for
+    shifts and masks.  Returns list or None if the leaf does not occur."""
+    if leaf_pred(t):
+        return []
+    k = t[0]
+    if k in ('<<', '>>', '&', '|', '+', '*', '-', '/', '%', '^'):
+        subs = list(t[1]) if len(t) == 2 else [t[1], t[2]]
+        for i, x in enumerate(subs):
+            r = shift_path(x, leaf_pred)
+            if r is not None:
+                other = [y for j, y in enumerate(subs) if j != i]
+                if k in ('<<', '>>', '&') and len(other) == 1 and other[0][0] == 'c':
+                    if k in ('<<', '>>') and i != 0:
+                        return r
+                    return r + [(k, other[0][1])]
+                return r
+        return None
+    if k in ('cast', 'Not', 'Neg'):
+        return shift_path(t[-1], leaf_pred)
+    if k == 'proj':
+        return shift_path(t[1], leaf_pred)
+    return None
